@@ -2,7 +2,8 @@
 
 spec:    specs/Tls.tla - configuration / phase model: provider TLS {off,on} x consumer TLS {none,optional,enforced}
          x provider http server {shared,own} x consumer http server {shared,own} x alternative host name {none,set}
-         x peer answers TLS {yes,no} (x subscription manager {sync,async} in the thorough tier); phases metadata,
+         x peer answers TLS {yes,no} (x subscription manager {sync, async, sync_ref, async_ref} in the thorough tier,
+         *_ref: reference-parameter managers on both sides); phases metadata,
          hosted (metadata + WSDL), subscribe, probe, notification, renew (Renew + GetStatus), operation, unsubscribe,
          stop (provider stop with SubscriptionEnd).  Advertised(c, ph) / Connects(c, ph) / ReqScheme / AllowedCtx /
          OwnServerCtx are the reference; the behaviour walks every configuration through the phases and the laws of
@@ -396,11 +397,14 @@ def strip(trace: list[dict]) -> list[dict]:
 
 def judge(run, traces: list[list[dict]], payloads: list[dict]):
     rejects = tracecheck.validate(run, 'TlsTrace', 'TlsTrace.cfg', [strip(t) for t in traces], timeout=900)
+    # property clauses first; a sanity clause (harness against model) that fails in a trace WITHOUT a rejected property
+    # clause means the check cannot vouch for that trace: machinery failure (after the violations were recorded a
+    # behaviour that differs from the model is a consequence of the violation, not a second problem)
     sanity = [(ti, li, cl) for ti, li, cl in rejects if cl.startswith('SANITY:')]
-    if sanity:
-        ti, li, cl = sanity[0]
-        raise MachineryError(f'{len(sanity)} sanity clause(s) failed (harness and model disagree), first: {cl} for '
-                             f'{payloads[ti]["c"]} record {li}: {json.dumps(traces[ti][li], default=str)[:1500]}')
+    rejects = [r for r in rejects if not r[2].startswith('SANITY:')]
+    violating = {ti for ti, _, _ in rejects}
+    unexplained = [r for r in sanity if r[0] not in violating]
+    run.note('sanity_clauses_failed_in_violating_traces', len(sanity) - len(unexplained))
     seen = set()
     for ti, li, clause in sorted(rejects):
         c = payloads[ti]['c']
@@ -408,8 +412,12 @@ def judge(run, traces: list[list[dict]], payloads: list[dict]):
         kind = c['kind']
         run.count(f'rejected_clauses_{kind}')
         if kind == 'cfg':
-            descr = {'check': 'session', 'clause': clause, 'phase': rec['phase'], 'ptls': c['ptls'], 'ctls': c['ctls']}
             base, _, rest = clause.partition(':')
+            party = rest.split(':')[0] if rest else 'consumer'
+            descr = {'check': 'session', 'clause': clause}
+            descr.update({'ptls': c['ptls']} if party == 'provider' else {'ctls': c['ctls']})
+            if base != 'advertised_https':
+                descr['phase'] = rec['phase']
             if base == 'advertised_https':
                 party, _, akind = rest.partition(':')
                 bad = [a for a in rec['adv'] if a['party'] == party and a['kind'] == akind and a['scheme'] != 'https']
@@ -434,6 +442,12 @@ def judge(run, traces: list[list[dict]], payloads: list[dict]):
             if key not in seen else None
         seen.add(key)
         run.violation(descr, what, replay)
+    if unexplained and not run.violations:
+        ti, li, cl = unexplained[0]
+        raise MachineryError(f'{len(unexplained)} sanity clause(s) failed (harness and model disagree), first: {cl} for '
+                             f'{payloads[ti]["c"]} record {li}: {json.dumps(traces[ti][li], default=str)[:1500]}')
+    if unexplained:
+        run.note('sanity_clauses_failed_in_other_traces', sorted({cl for _, _, cl in unexplained})[:8])
 
 
 def drive(payload: dict) -> tuple[list[dict], int]:
@@ -458,7 +472,7 @@ def check(run, replay_path=None):
         return
 
     # ---- spec -> code: the model is checked (laws, coverage of every action) and enumerates the cases
-    n_cfg = run.pick(96, 192)
+    n_cfg = run.pick(96, 384)
     kinds = cases_of(run, run.pick('Tls.cfg', 'Tls_thorough.cfg'), n_cfg)
     payloads = kinds['cert'] + kinds['client'] + kinds['cfg']
     traces, calls = [], 0
